@@ -1857,7 +1857,10 @@ class Module(ABC):
         # Clamp for channels and synapses.
         for key in externals.keys():
             if key not in ["i", "v"]:
-                u[key] = u[key].at[external_inds[key]].set(externals[key])
+                inds = external_inds[key]
+                if key in self.synapse_state_names:
+                    inds = self._edge_inds_within_type(inds)
+                u[key] = u[key].at[inds].set(externals[key])
 
         # Voltage steps.
         cm = params["capacitance"]  # Abbreviation.
@@ -1933,6 +1936,17 @@ class Module(ABC):
             u["v"] = u["v"].at[external_inds["v"]].set(externals["v"])
 
         return u
+
+    def _edge_inds_within_type(self, inds):
+        """Map global edge indices to the index within their synapse type.
+
+        Synaptic states and currents are stored in one array per synapse type, which
+        contains only the synapses of that type (in the order of `.edges`)."""
+        synapse_inds = self.base.edges.groupby("type").rank()["global_edge_index"]
+        synapse_inds = (synapse_inds.astype(int) - 1).to_numpy()
+        if isinstance(inds, np.ndarray):
+            return synapse_inds[inds]
+        return jnp.asarray(synapse_inds)[inds]
 
     def _step_channels(
         self,
